@@ -70,7 +70,11 @@ def project_cmd(cmd):
         if abs(k - round(k)) > 1e-9:
             raise Unrecoverable("Kerr parameter %r" % k)
         ps = [[int(round(k)), 1]]
-    elif name in ("MeasureHomodyne", "MeasureHeterodyne"):
+    elif name == "MeasureHomodyne":
+        # <<angle, select, has_select>> (the form the specifications use)
+        sel = getattr(op, "select", None)
+        ps = [angle(float(par_evaluate(op.p[0]))), recover("real", 0.0 if sel is None else float(sel)), [0, 1] if sel is None else [1, 1]]
+    elif name == "MeasureHeterodyne":
         raise Unrecoverable("measurement")
     elif name == "MSgate":
         if len(op.p) != 5 or not bool(op.p[4]):
